@@ -409,6 +409,8 @@ def run(rep, tier):
         from ..engines import siblings
         rep.call(siblings.forwarded_args, rep, prog, "C01.forwarded-options")
         rep.call(supersampling_size, rep, prog, "C01.supersampling-size")
+        from ..engines import loadwidth as _lw
+        rep.call(_lw.cursor_advance, rep, prog, "C01.cursor-advance", {"x86": 16, "x86-rayon": 16, "wasm": 4}.get(cfg, 0))
         from ..engines import validators
         rep.call(validators.crop_passthrough, rep, prog, "C01.crop-passthrough")
         # "rounding is to nearest (single-pass results are within half a unit)": the rounding terms
